@@ -365,4 +365,7 @@ def obligations(ctx: Ctx):
         obs.append(Ob(f"{P}.B1", "B", "derivations of compiled field rules (schema pools, all routes) through the real reader and the field's chain", FUNCS, C13_b.ob_b1, timeout=3000))
     except ImportError:
         pass
+    from props import lexical as _LX
+
+    obs += _LX.parse_scalar_obs(P)
     return obs
